@@ -147,6 +147,8 @@ def _respelt(t, rng):
             v = v.replace('T', ' ')
         if rng.random() < 0.6:
             v = v + rng.choice(['.5', '.125', '.250', '.875000', '.0', '.1', '.000001', '.37'])
+        if rng.random() < 0.4:
+            v = rng.choice(['\n      ', ' ', '\t']) + v + rng.choice(['\n    ', ' ', ''])      # a pretty-printed field
         t[2] = v
     t[4] = [_respelt(c, rng) for c in t[4]]
     return t
